@@ -148,8 +148,47 @@ class _IntSub(int):
     pass
 
 
+L_BYTES = 2 ** 20
+L_ARRAY = 2 ** 14
+WIDE = ["a", "\u00e9", "\u20ac", "\U0001f600"]  # 1, 2, 3, 4 byte code points
+
+
+def sized_str(ch, nbytes):
+    """a string of ch (padded with ascii) whose utf-8 encoding has exactly nbytes bytes"""
+    w = len(ch.encode("utf-8"))
+    n = nbytes // w
+    return ch * n + "x" * (nbytes - n * w)
+
+
+def at_limit_values():
+    """values exactly at (and just below) the documented size limits: in the domain, must round trip"""
+    out = []
+    for ch in WIDE:
+        w = len(ch.encode("utf-8"))
+        for nbytes in (L_BYTES - w, L_BYTES - 1, L_BYTES):
+            out.append((sized_str(ch, nbytes), "str of %d-byte chars, %s bytes encoded" % (w, "limit" if nbytes == L_BYTES else "limit-%d" % (L_BYTES - nbytes))))
+    out.append((C13One(x=sized_str("\u00e9", L_BYTES)), "class field: str of 2-byte chars at the byte limit"))
+    out.append(([1, {"k": sized_str("\u20ac", L_BYTES)}], "nested: str of 3-byte chars at the byte limit"))
+    for n in (L_BYTES - 1, L_BYTES):
+        out.append((b"\x01" * n, "bytes of length limit%+d" % (n - L_BYTES)))
+    for n in (L_ARRAY - 1, L_ARRAY):
+        out.append(([None] * n, "list of length limit%+d" % (n - L_ARRAY)))
+        out.append((tuple([0] * n), "tuple of length limit%+d" % (n - L_ARRAY)))
+        out.append((set(range(n)), "set of size limit%+d" % (n - L_ARRAY)))
+        out.append(({i: None for i in range(n)}, "dict of size limit%+d" % (n - L_ARRAY)))
+    return out
+
+
 def out_of_domain():
-    return [
+    over = []
+    for ch in WIDE:
+        w = len(ch.encode("utf-8"))
+        for extra in sorted({1, w, w + 1}):
+            over.append((sized_str(ch, L_BYTES + extra), "str of %d-byte chars, limit+%d bytes encoded (%s characters)" % (
+                w, extra, "<= 2**20" if len(sized_str(ch, L_BYTES + extra)) <= L_BYTES else "> 2**20")))
+    over.append((C13One(x=sized_str("\u00e9", L_BYTES + 2)), "class field: str of 2-byte chars, limit+2 bytes"))
+    over.append(([sized_str("\u20ac", L_BYTES + 3)], "list containing str of 3-byte chars, limit+3 bytes"))
+    return over + [
         (2 ** 63, "int 2**63"), (-2 ** 63 - 1, "int -2**63-1"), (2 ** 64, "int 2**64"), (10 ** 30, "int 1e30"),
         ("x" * (2 ** 20 + 1), "str 2**20+1"), (b"x" * (2 ** 20 + 1), "bytes 2**20+1"),
         ([0] * (2 ** 14 + 1), "list 2**14+1"), (tuple([0] * (2 ** 14 + 1)), "tuple 2**14+1"),
@@ -256,6 +295,15 @@ def run(tier, seed):
             if key not in acc:
                 acc[key] = [0, wit, msg]
             acc[key][0] += cnt
+    # at the documented size limits: in the domain
+    for v, label in at_limit_values():
+        total += 1
+        cls, bad = check_value(v, label)
+        classes.inc("limit:" + cls)
+        if bad:
+            acc[(bad[0], bad[1])] = [1, {"label": label, "family": "at-limit"}, bad[2][:300]]
+        else:
+            distinct += 1
     # out of domain
     ood = 0
     for v, label in out_of_domain():
@@ -272,7 +320,7 @@ def run(tier, seed):
         except Exception:
             same = False
         if not same:
-            acc[("out-of-domain", "out-of-domain value silently mis-encoded: %s" % label)] = [1, {"label": label}, "serialize_value accepted %s and the bytes do not decode back to it" % label]
+            acc[("out-of-domain", "out-of-domain value silently mis-encoded: %s" % label)] = [1, {"label": label, "family": "out-of-domain"}, "serialize_value accepted %s and the bytes do not decode back to it" % label]
         else:
             classes.inc("ood-accepted-and-exact")
     for (oracle, sig), (cnt, wit, msg) in sorted(acc.items()):
@@ -281,7 +329,7 @@ def run(tier, seed):
         "evaluations": total + ood, "distinct_nontrivial": distinct,
         "rule": "value grammar: %d scalars (all int width boundaries +-, float specials, utf-8/NUL/127-129 byte strings, enum members), containers list/tuple/set/dict/class of width<=2 over them, "
                 "depth 3 over a representative depth-2 set (thorough: depth 4, width 3); each value: round trip + encoded twice + trailer; "
-                "%d out-of-domain values must be refused. non-trivial = distinct canonical values that passed all three checks" % (len(SCALARS), ood),
+                "values exactly at the size limits (1-4 byte characters at 2**20 encoded bytes, 2**14 elements) must round trip; %d out-of-domain values must be refused. non-trivial = distinct canonical values that passed all three checks" % (len(SCALARS), ood),
         "classes": {k: v for k, v in classes.items() if not k.startswith("shape:")},
         "shapes": {k[6:]: v for k, v in classes.items() if k.startswith("shape:")},
         "exhaustive": True,
@@ -293,6 +341,25 @@ def run(tier, seed):
 
 def replay(witness):
     work_init("thorough")
+    if witness.get("family") == "at-limit":
+        for v, label in at_limit_values():
+            if label == witness["label"]:
+                cls, bad = check_value(v, label)
+                return [core.Violation(bad[0], bad[1], witness, bad[2][:300])] if bad else []
+    if witness.get("family") == "out-of-domain":
+        for v, label in out_of_domain():
+            if label == witness["label"]:
+                try:
+                    enc = encode(v)
+                    got = deserialize_value(io.BytesIO(enc))
+                    if canon(got) == canon(v):
+                        return []
+                except Exception:
+                    try:
+                        encode(v)
+                    except Exception:
+                        return []
+                return [core.Violation("out-of-domain", "out-of-domain value silently mis-encoded: %s" % label, witness, label)]
     for i, (v, label) in enumerate(gen_values("thorough")):
         if repr(v)[:200] == witness.get("repr") and label == witness.get("label"):
             cls, bad = check_value(v, label)
